@@ -29,6 +29,28 @@ Operations (answers about the CHUNK-built twin unless said otherwise):
     prot     (D / coding T) translate()   (default table, strict)
     kframes  (D / coding T) chunk_relative_frames
     kwcodons (D / coding T) scan_chunk_relative_codon_locations(lo, hi); the line carries `<lo> <hi>` after the OBJ
+    cwcodons (D / coding T) scan_chromosome_codon_locations(lo, hi) of the chunk-built twin; `<lo> <hi>` after the OBJ
+    same     (needs via:) the alternatively constructed object against the ORDINARY construction on the same chunk, per
+             node `<tag> <loc><crl><dict><guid><seq>` (1 equal / 0 different: chromosome blocks+strand+start+end,
+             chunk-relative location, to_dict() without identifier / is_primary entries, guid (`-` for G / Q / A: their
+             digest reads the chunk-relative location, F-C07a, and from_dict copies the source's), spliced / reference
+             sequence; `-` for the sequence of a CDS node)
+             then `| <frames><cdsseq><prot>` for the CDS of a root D / coding T (`-` otherwise)
+    order    `<lo> <hi>` after the OBJ: every observable of every node, evaluated on two fresh chunk-built objects:
+             `ck` chromosome-level views first, then chunk-relative views; `kc` the other way round.  Answer
+             `ok <cells> | <cells>` (order ck, order kc); a cell is `;<name> <canonical text>`
+
+Optional trailing modifiers (in this order, after the op's own extra tokens):
+    via:<ctor>   the chunk-built twin is made by an ALTERNATIVE constructor; every op then asks the same question
+        fcrl        Cls.from_chunk_relative_location(<the object's location written in chunk coordinates>) — F / T / D whose
+                    blocks lie inside the chunk (a coding T: cds = CDSInterval.from_chunk_relative_location(...))
+        dict        Cls.from_dict(<whole-chromosome twin>.to_dict(), parent_or_seq_chunk_parent=chunk)
+        lift        <whole-chromosome twin>.liftover_to_parent_or_seq_chunk_parent(chunk)
+        relift      <twin built on the chunk [0, L) of the OPPOSITE strand>.liftover_to_parent_or_seq_chunk_parent(chunk)
+        snv:<p>     <object built on the chunk of the chromosome that differs at position p>.incorporate_variants(SNV at
+                    p restoring the line's letter) — F / T / D inside the chunk; coordinates are untouched
+    @k | @c      before the op's own question the chunk-relative (@k) / chromosome-level (@c) views of every node of the
+                 same object are evaluated (and dropped): the answer must not depend on it
 """
 from harness import shims
 shims.install()
@@ -42,7 +64,11 @@ from inscripta.biocantor.gene.collections import AnnotationCollection
 from inscripta.biocantor.gene.feature import FeatureInterval, FeatureIntervalCollection
 from inscripta.biocantor.gene.gene import GeneInterval
 from inscripta.biocantor.gene.transcript import TranscriptInterval
+from inscripta.biocantor.gene.variants import VariantInterval
 from inscripta.biocantor.io.parser import seq_chunk_to_parent, seq_to_parent
+from inscripta.biocantor.location import SingleInterval, CompoundInterval, Strand
+import hashlib
+import json
 
 COMP = {"A": "T", "C": "G", "G": "C", "T": "A", "N": "N", "a": "t", "c": "g", "g": "c", "t": "a", "n": "n",
         "R": "Y", "Y": "R", "S": "S", "W": "W", "K": "M", "M": "K"}
@@ -156,8 +182,82 @@ def nodes(d, o):
             yield from nodes(dd, oo)
 
 
-def _twins(key):
-    """key = "<letters> <ws> <we> <wst> <OBJ…>"; returns (description, chromosome twin, chunk twin, None) or an error
+# ---------------------------------------------------------------------------------------------- parents, constructors
+
+def mk_chunk(letters, ws, we, wst):
+    piece = letters[ws:we] if wst == "+" else revcomp(letters[ws:we])
+    return seq_chunk_to_parent(piece, CHROM, ws, we, SYM[wst])
+
+
+def rel_location(blocks, strand, ws, we, wst, parent):
+    """chromosome blocks inside the window [ws, we), written in the coordinates of the chunk (plain arithmetic, no
+    library lift): + chunk: shift by ws; - chunk: mirror about we and flip the strand"""
+    if wst == "+":
+        bl, st = [(a - ws, b - ws) for a, b in blocks], strand
+    else:
+        bl, st = sorted((we - b, we - a) for a, b in blocks), strand.reverse()
+    if len(bl) == 1:
+        return SingleInterval(bl[0][0], bl[0][1], st, parent=parent)
+    return CompoundInterval([a for a, _ in bl], [b for _, b in bl], st, parent=parent)
+
+
+ROT = {"A": "C", "C": "G", "G": "T", "T": "A", "N": "A"}
+CLS = {"F": FeatureInterval, "T": TranscriptInterval, "D": CDSInterval, "G": GeneInterval,
+       "Q": FeatureIntervalCollection, "A": AnnotationCollection}
+
+
+def from_chunk_relative(d, ws, we, wst, chunk):
+    tag = d[0]
+    if tag == "F":
+        return FeatureInterval.from_chunk_relative_location(rel_location(d[2], d[1], ws, we, wst, chunk))
+    if tag == "D":
+        return CDSInterval.from_chunk_relative_location(
+            rel_location([(s, e) for s, e, _ in d[2]], d[1], ws, we, wst, chunk), [CDSFrame(f) for _, _, f in d[2]])
+    if tag == "T":
+        cds = None
+        if d[3]:
+            cds = CDSInterval.from_chunk_relative_location(
+                rel_location([(s, e) for s, e, _ in d[3]], d[1], ws, we, wst, chunk), [CDSFrame(f) for _, _, f in d[3]])
+        return TranscriptInterval.from_chunk_relative_location(rel_location(d[2], d[1], ws, we, wst, chunk), cds=cds)
+    raise KeyError("via:fcrl " + tag)
+
+
+def build_via(d, letters, ws, we, wst, via):
+    """the chunk twin through an alternative constructor"""
+    chunk = mk_chunk(letters, ws, we, wst)
+    if via == "fcrl":
+        return from_chunk_relative(d, ws, we, wst, chunk)
+    if via == "dict":
+        return CLS[d[0]].from_dict(build(d, seq_to_parent(letters, seq_id=CHROM)).to_dict(), chunk)
+    if via == "lift":
+        return build(d, seq_to_parent(letters, seq_id=CHROM)).liftover_to_parent_or_seq_chunk_parent(chunk)
+    if via == "relift":
+        other = mk_chunk(letters, 0, len(letters), "-" if wst == "+" else "+")
+        return build(d, other).liftover_to_parent_or_seq_chunk_parent(chunk)
+    if via.startswith("snv:"):
+        if d[0] not in "FTD":
+            raise KeyError("via:snv " + d[0])
+        p = int(via[4:])
+        before = letters[:p] + ROT[letters[p].upper()] + letters[p + 1:]
+        chunk0 = mk_chunk(before, ws, we, wst)
+        variant = VariantInterval(p, p + 1, letters[p], "SNV", parent_or_seq_chunk_parent=chunk0)
+        return build(d, chunk0).incorporate_variants(variant)
+    raise KeyError("via:" + via)
+
+
+def split_mods(key):
+    """strip the trailing modifiers `via:<ctor>` and `@k|@c`"""
+    toks = key.split(" ")
+    pre = via = None
+    if toks and toks[-1] in ("@k", "@c"):
+        pre = toks.pop()[1]
+    if toks and toks[-1].startswith("via:"):
+        via = toks.pop()[4:]
+    return " ".join(toks), via, pre
+
+
+def _twins(key, via=None):
+    """key = "<letters> <ws> <we> <wst> <OBJ…>"; returns (head, description, chromosome twin, chunk twin, None) or an error
     token in the last place.  Fresh objects for every op line: no answer depends on an earlier question."""
     tk = Toks(key.split())
     letters = tk.next()
@@ -165,15 +265,16 @@ def _twins(key):
     d = parse_obj(tk)
     if not tk.done():
         raise ValueError("trailing tokens")
+    hd = (letters, ws, we, wst)
     try:
         whole = seq_to_parent(letters, seq_id=CHROM)
-        piece = letters[ws:we] if wst == "+" else revcomp(letters[ws:we])
-        chunk = seq_chunk_to_parent(piece, CHROM, ws, we, SYM[wst])
-        return d, build(d, whole), build(d, chunk), None
+        a = build(d, whole)
+        b = build(d, mk_chunk(letters, ws, we, wst)) if via is None else build_via(d, letters, ws, we, wst, via)
+        return hd, d, a, b, None
     except RecursionError:
-        return d, None, None, "err! RecursionError"
+        return hd, d, None, None, "err! RecursionError"
     except Exception as e:  # noqa
-        return d, None, None, exc_token(e)
+        return hd, d, None, None, exc_token(e)
 
 
 # entries of a `to_dict()` that hold the object's own digest; they are compared per node (second part of `ident`)
@@ -186,6 +287,19 @@ def strip_digests(v):
         return {k: strip_digests(x) for k, x in v.items() if k not in DIGEST_KEYS}
     if isinstance(v, (list, tuple)):
         return [strip_digests(x) for x in v]
+    return v
+
+
+METADATA_KEYS = {"is_primary_tx", "is_primary_feature"}
+
+
+def coord_dict(v):
+    """a `to_dict()` without identifier entries (compared on their own) and without the primary flags, which
+    incorporate_variants turns from None into False (metadata: C08 / C13)"""
+    if isinstance(v, dict):
+        return {k: coord_dict(x) for k, x in v.items() if k not in DIGEST_KEYS and k not in METADATA_KEYS}
+    if isinstance(v, (list, tuple)):
+        return [coord_dict(x) for x in v]
     return v
 
 
@@ -215,17 +329,145 @@ def show_locs(locs):
     return f"{len(locs)}" + "".join(" " + show_loc(l) for l in locs)
 
 
+# ---------------------------------------------------------------------------------------------- views of one object
+
+def digest_text(v):
+    return hashlib.md5(json.dumps(v, sort_keys=True, default=str).encode()).hexdigest()[:12]
+
+
+def chromosome_views(d, o, win):
+    """every chromosome-level observable of every node, name -> canonical text"""
+    out = {}
+    for i, (tag, dd, n) in enumerate(nodes(d, o)):
+        if tag == "X":
+            continue
+        k = f"{i}{tag}"
+        out[k + ".span"] = cell(lambda: f"{n.start} {n.end} {show_loc(n.chromosome_location)}")
+        out[k + ".to_dict"] = cell(lambda: digest_text(n.to_dict()))
+        out[k + ".guid"] = cell(lambda: str(n.guid))
+        if tag == "D":
+            out[k + ".frames"] = cell(lambda: "f" + "".join(str(f.value) for f in n.frames))
+            out[k + ".num_codons"] = cell(lambda: str(n.num_codons))
+            out[k + ".chromosome_codon_locations"] = cell(lambda: show_locs(n.chromosome_codon_locations))
+            out[k + ".scan_chromosome_codon_locations"] = cell(
+                lambda: show_locs(n.scan_chromosome_codon_locations(win[0], win[1])))
+    return out
+
+
+def chunk_views(d, o, win):
+    """every chunk-relative observable of every node, name -> canonical text"""
+    out = {}
+    for i, (tag, dd, n) in enumerate(nodes(d, o)):
+        if tag == "X":
+            continue
+        k = f"{i}{tag}"
+        out[k + ".chunk_relative_location"] = cell(lambda: show_loc(n.chunk_relative_location))
+        if tag in "FTD":
+            out[k + ".to_dict_chunk"] = cell(lambda: digest_text(n.to_dict(chromosome_relative_coordinates=False)))
+        if tag in "FT":
+            out[k + ".spliced"] = cell(lambda: "s:" + str(n.get_spliced_sequence()))
+        elif tag in "GQA":
+            out[k + ".reference"] = cell(lambda: "s:" + str(n.get_reference_sequence()))
+        if tag == "D":
+            out[k + ".num_chunk_relative_codons"] = cell(lambda: str(n.num_chunk_relative_codons))
+            out[k + ".chunk_relative_codon_locations"] = cell(lambda: show_locs(n.chunk_relative_codon_locations))
+            out[k + ".scan_chunk_relative_codon_locations"] = cell(
+                lambda: show_locs(n.scan_chunk_relative_codon_locations(win[0], win[1])))
+            out[k + ".extract_sequence"] = cell(lambda: "s:" + str(n.extract_sequence()))
+            out[k + ".translate"] = cell(lambda: "s:" + str(n.translate()))
+            out[k + ".chunk_relative_frames"] = cell(lambda: "f" + "".join(str(f.value) for f in n.chunk_relative_frames))
+    return out
+
+
+def default_window(d):
+    bl = []
+
+    def walk(x):
+        if x[0] == "F":
+            bl.extend(x[2])
+        elif x[0] == "T":
+            bl.extend(x[2])
+        elif x[0] == "D":
+            bl.extend((s, e) for s, e, _ in x[2])
+        elif x[0] in "GQ":
+            for y in x[1]:
+                walk(y)
+        else:
+            for y in x[1] + x[2]:
+                walk(y)
+    walk(d)
+    return (min(s for s, _ in bl), max(e for _, e in bl)) if bl else (0, 1)
+
+
+def ordered_views(d, o, win, order):
+    """`ck`: chromosome-level views first; `kc`: chunk-relative views first.  Printed in one fixed order."""
+    if order == "ck":
+        c = chromosome_views(d, o, win)
+        k = chunk_views(d, o, win)
+    else:
+        k = chunk_views(d, o, win)
+        c = chromosome_views(d, o, win)
+    out = dict(c)
+    out.update(k)
+    return " ".join(f";{name} {out[name]}" for name in sorted(out))
+
+
+def same_flags(d, hd, y):
+    """alternatively constructed `y` against the ordinary construction on a fresh, identical chunk"""
+    letters, ws, we, wst = hd
+    x = build(d, mk_chunk(letters, ws, we, wst))
+    nx, ny = list(nodes(d, x)), list(nodes(d, y))
+    out = []
+    flag = lambda b: "1" if b else "0"
+    for (tx, _, ox), (ty, _, oy) in zip(nx, ny):
+        if tx == "X" or ty == "X":
+            out.append("X " + ("11111" if tx == ty else "00000"))
+            continue
+        loc = (ox.start, ox.end, show_loc(ox.chromosome_location)) == (oy.start, oy.end, show_loc(oy.chromosome_location))
+        crl = show_loc(ox.chunk_relative_location) == show_loc(oy.chunk_relative_location)
+        dic = coord_dict(ox.to_dict()) == coord_dict(oy.to_dict())
+        gid = "-" if tx in "GQA" else flag(ox.guid == oy.guid)
+        if tx == "D":
+            sq = "-"
+        else:
+            fx = ox.get_spliced_sequence if tx in "FT" else ox.get_reference_sequence
+            fy = oy.get_spliced_sequence if ty in "FT" else oy.get_reference_sequence
+            sq = flag(cell(lambda: "s:" + str(fx())) == cell(lambda: "s:" + str(fy())))
+        out.append(f"{ty} {flag(loc)}{flag(crl)}{flag(dic)}{gid}{sq}")
+    if len(nx) != len(ny):
+        out.append("X 00000")
+    if d[0] == "D" or (d[0] == "T" and d[3]):
+        cx, cy = _coding(d, x), _coding(d, y)
+        fr = [f.value for f in cx.frames] == [f.value for f in cy.frames]
+        cs = cell(lambda: "s:" + str(cx.extract_sequence())) == cell(lambda: "s:" + str(cy.extract_sequence()))
+        pr = cell(lambda: "s:" + str(cx.translate())) == cell(lambda: "s:" + str(cy.translate()))
+        out.append(f"| {flag(fr)}{flag(cs)}{flag(pr)}")
+    else:
+        out.append("| ---")
+    return " ".join(out)
+
+
 def impl_chunk_op(line):
     op, _, key = line.partition(" ")
+    key, via, pre = split_mods(key)
     win = None
-    if op == "kwcodons":
+    if op in ("kwcodons", "cwcodons", "order"):
         key, lo, hi = key.rsplit(" ", 2)
         win = (int(lo), int(hi))
-    d, a, b, err = _twins(key)
+    hd, d, a, b, err = _twins(key, via)
     if err is not None:
         return err
 
     def go():
+        if op == "order":
+            b2 = build(d, mk_chunk(*hd)) if via is None else build_via(d, *hd, via)
+            return "ok " + ordered_views(d, b, win, "ck") + " | " + ordered_views(d, b2, win, "kc")
+        if pre is not None:
+            # the other views of the same object first; whatever they answer (or raise) is dropped
+            w = win or default_window(d)
+            (chunk_views if pre == "k" else chromosome_views)(d, b, w)
+        if op == "same":
+            return "ok " + same_flags(d, hd, b)
         if op == "loc":
             out = []
             for tag, _, o in nodes(d, b):
@@ -236,7 +478,8 @@ def impl_chunk_op(line):
                                f"{show_loc(o.chunk_relative_location)}")
             return "ok " + " ".join(out)
         if op == "ident":
-            deq = strip_digests(a.to_dict()) == strip_digests(b.to_dict())
+            norm = coord_dict if (via or "").startswith("snv") else strip_digests     # (is_primary_*: see coord_dict)
+            deq = norm(a.to_dict()) == norm(b.to_dict())
             out = [str(int(deq))]
             na, nb = list(nodes(d, a)), list(nodes(d, b))
             for (ta, _, oa), (tb, _, ob) in zip(na, nb):
@@ -261,6 +504,8 @@ def impl_chunk_op(line):
             return "ok " + show_locs(c.chunk_relative_codon_locations)
         if op == "kwcodons":
             return "ok " + show_locs(c.scan_chunk_relative_codon_locations(win[0], win[1]))
+        if op == "cwcodons":
+            return "ok " + show_locs(c.scan_chromosome_codon_locations(win[0], win[1]))
         if op == "cdsseq":
             return "ok s:" + str(c.extract_sequence())
         if op == "prot":
